@@ -32,6 +32,8 @@ type lexOutcome struct {
 	lit           string    // the token's literal text when it folds to a constant
 	litOK         bool
 	litScan       bool // the literal is the scanner's result
+	startLineAdv  int  // advances on the path when Start.Line was read from the cursor (-1: not a cursor read)
+	startColAdv   int
 	advBeforeScan int  // advances before the scanner call (-1: no scanner)
 	curAtBuild    bset // the current byte when the token literal is built
 }
@@ -40,13 +42,18 @@ type aval struct {
 	k      constant.Value
 	fields map[string]*aval // struct value (token literal, table entry)
 	tuple  []*aval
-	tag    string // "ident", "scan", "scantyp"
+	list   []*aval // a folded slice / array value
+	mapv   map[string]*aval // a folded map value (keys as keyString)
+	isList bool
+	tag    string // "ident", "scan", "scantyp", "line", "column"
+	adv    int    // for line/column reads: how many advances had happened on the path
 	fn     *ssa.Function
 }
 
 type lexWalker struct {
 	c        *Ctx
 	lf       *lexFacts
+	la       *lexAnchors
 	problems map[string]bool
 	out      []lexOutcome
 	steps    int
@@ -121,12 +128,14 @@ func (w *lexWalker) ev(fr *lexFrame, v ssa.Value) *aval {
 
 // walkFn explores fn from its entry; done is called for every path that reaches a return, with the value returned.
 func (w *lexWalker) walkFn(fr *lexFrame, p *lexPath, done func(p *lexPath, ret []*aval)) {
-	w.walkBlock(fr, fr.fn.Blocks[0], nil, p, map[*ssa.BasicBlock]bool{}, done)
+	w.walkBlock(fr, fr.fn.Blocks[0], nil, p, map[*ssa.BasicBlock]int{}, done)
 }
 
-func (w *lexWalker) walkBlock(fr *lexFrame, b, pred *ssa.BasicBlock, p *lexPath, on map[*ssa.BasicBlock]bool, done func(p *lexPath, ret []*aval)) {
-	if on[b] {
-		w.problem("%s: a loop is reached on the way to a token (block %d)", fnName(fr.fn), b.Index)
+func (w *lexWalker) walkBlock(fr *lexFrame, b, pred *ssa.BasicBlock, p *lexPath, on map[*ssa.BasicBlock]int, done func(p *lexPath, ret []*aval)) {
+	// a block may be re-entered (a loop over the rows of a folded table: every iteration is decided by folded values);
+	// an open-ended loop exhausts this bound or the step budget and is reported
+	if on[b] >= 24 {
+		w.problem("%s: a loop is reached on the way to a token and does not end within 24 rounds (block %d)", fnName(fr.fn), b.Index)
 		return
 	}
 	w.steps++
@@ -134,8 +143,8 @@ func (w *lexWalker) walkBlock(fr *lexFrame, b, pred *ssa.BasicBlock, p *lexPath,
 		w.problem("path budget exhausted")
 		return
 	}
-	on[b] = true
-	defer delete(on, b)
+	on[b]++
+	defer func() { on[b]-- }()
 	// phis first, all from the pre-state
 	if pred != nil {
 		edge := -1
@@ -173,7 +182,7 @@ func (w *lexWalker) walkBlock(fr *lexFrame, b, pred *ssa.BasicBlock, p *lexPath,
 	w.walkInstrs(fr, b, 0, p, on, done)
 }
 
-func (w *lexWalker) walkInstrs(fr *lexFrame, b *ssa.BasicBlock, from int, p *lexPath, on map[*ssa.BasicBlock]bool, done func(p *lexPath, ret []*aval)) {
+func (w *lexWalker) walkInstrs(fr *lexFrame, b *ssa.BasicBlock, from int, p *lexPath, on map[*ssa.BasicBlock]int, done func(p *lexPath, ret []*aval)) {
 	lf := w.lf
 	for i := from; i < len(b.Instrs); i++ {
 		in := b.Instrs[i]
@@ -185,6 +194,24 @@ func (w *lexWalker) walkInstrs(fr *lexFrame, b *ssa.BasicBlock, from int, p *lex
 			continue
 		case *ssa.Store:
 			if fa, ok := x.Addr.(*ssa.FieldAddr); ok {
+				if inner, ok := fa.X.(*ssa.FieldAddr); ok {
+					// &(&obj.A).B = v
+					if obj := fr.allocs[inner.X]; obj != nil {
+						sub := obj.fields[fieldOfAddr(inner).Name()]
+						if sub == nil || sub.fields == nil {
+							sub = &aval{fields: map[string]*aval{}}
+						} else {
+							sub = sub.copy()
+						}
+						if v := w.ev(fr, x.Val); v != nil {
+							sub.fields[fieldOfAddr(fa).Name()] = v
+						} else {
+							delete(sub.fields, fieldOfAddr(fa).Name())
+						}
+						obj.fields[fieldOfAddr(inner).Name()] = sub
+						continue
+					}
+				}
 				if obj := fr.allocs[fa.X]; obj != nil {
 					if v := w.ev(fr, x.Val); v != nil {
 						obj.fields[fieldOfAddr(fa).Name()] = v
@@ -224,8 +251,32 @@ func (w *lexWalker) walkInstrs(fr *lexFrame, b *ssa.BasicBlock, from int, p *lex
 						}
 						continue
 					}
+					if w.la != nil && namedIs(fa.X.Type(), "lexer", "Lexer") {
+						switch fieldOfAddr(fa) {
+						case w.la.line:
+							fr.env[x] = &aval{tag: "line", adv: len(p.consumed)}
+							if p.open {
+								fr.env[x].adv = 1 << 20
+							}
+							continue
+						case w.la.col:
+							fr.env[x] = &aval{tag: "column", adv: len(p.consumed)}
+							if p.open {
+								fr.env[x].adv = 1 << 20
+							}
+							continue
+						}
+					}
 				}
 				if ia, ok := x.X.(*ssa.IndexAddr); ok {
+					if lv := w.ev(fr, ia.X); lv != nil && lv.isList {
+						if iv := w.ev(fr, ia.Index); iv != nil && iv.k != nil {
+							if n, ok := constant.Int64Val(constant.ToInt(iv.k)); ok && n >= 0 && n < int64(len(lv.list)) && lv.list[n] != nil {
+								fr.env[x] = lv.list[n]
+							}
+						}
+						continue
+					}
 					if seq := globalSeqTable(ia.X); seq != nil {
 						if iv := w.ev(fr, ia.Index); iv != nil && iv.k != nil {
 							if n, ok := constant.Int64Val(constant.ToInt(iv.k)); ok && n >= 0 && n < int64(len(seq)) && seq[n] != nil {
@@ -263,6 +314,12 @@ func (w *lexWalker) walkInstrs(fr *lexFrame, b *ssa.BasicBlock, from int, p *lex
 					val, found = &aval{fields: flds}, true
 				} else {
 					val = &aval{fields: map[string]*aval{}}
+				}
+			} else if gv := w.c.globalAval(x.X); gv != nil && gv.fields == nil && gv.tuple == nil && gv.mapv != nil {
+				if ev, ok := gv.mapv[keyString(key)]; ok {
+					val, found = ev, true
+				} else if mt, ok := x.X.Type().Underlying().(*types.Map); ok {
+					val = zeroAval(mt.Elem())
 				}
 			} else {
 				continue
@@ -320,6 +377,9 @@ func (w *lexWalker) walkInstrs(fr *lexFrame, b *ssa.BasicBlock, from int, p *lex
 				if x.Op == token.ADD && a.k.Kind() == constant.String && bb.k.Kind() == constant.String {
 					fr.env[x] = &aval{k: constant.MakeString(constant.StringVal(a.k) + constant.StringVal(bb.k))}
 				}
+				if (x.Op == token.ADD || x.Op == token.SUB) && a.k.Kind() == constant.Int && bb.k.Kind() == constant.Int {
+					fr.env[x] = &aval{k: constant.BinaryOp(a.k, x.Op, bb.k)}
+				}
 				switch x.Op {
 				case token.EQL, token.NEQ, token.LSS, token.LEQ, token.GTR, token.GEQ:
 					ak, bk := a.k, bb.k
@@ -345,6 +405,19 @@ func (w *lexWalker) walkInstrs(fr *lexFrame, b *ssa.BasicBlock, from int, p *lex
 				}
 				w.walkBlock(fr, b.Succs[idx], b, p, on, done)
 				return
+			}
+			// folded byte values take part in the refinement (peek == <entry of a folded table>)
+			if bo, ok := x.Cond.(*ssa.BinOp); ok {
+				for _, op := range []ssa.Value{bo.X, bo.Y} {
+					if _, isConst := op.(*ssa.Const); isConst || !isByte(op.Type()) {
+						continue
+					}
+					if ov := w.ev(fr, op); ov != nil && ov.k != nil {
+						if n, ok := constant.Int64Val(constant.ToInt(ov.k)); ok && n >= 0 && n < 256 {
+							p.s.vals[op] = setOf(byte(n))
+						}
+					}
+				}
 			}
 			for si, succ := range b.Succs {
 				q := p.clone()
@@ -377,7 +450,7 @@ func (v *aval) copy() *aval {
 	if v == nil {
 		return nil
 	}
-	n := &aval{k: v.k, tag: v.tag, fn: v.fn}
+	n := &aval{k: v.k, tag: v.tag, fn: v.fn, adv: v.adv}
 	if v.fields != nil {
 		n.fields = make(map[string]*aval, len(v.fields))
 		for k, f := range v.fields {
@@ -387,6 +460,7 @@ func (v *aval) copy() *aval {
 	if v.tuple != nil {
 		n.tuple = append([]*aval(nil), v.tuple...)
 	}
+	n.list, n.isList = v.list, v.isList
 	return n
 }
 
@@ -405,14 +479,19 @@ func (fr *lexFrame) fork() *lexFrame {
 
 // call handles one call instruction. It returns true when it has taken over the rest of the block (the callee was
 // walked path by path and the caller continued after each of them).
-func (w *lexWalker) call(fr *lexFrame, b *ssa.BasicBlock, i int, x *ssa.Call, p *lexPath, on map[*ssa.BasicBlock]bool, done func(p *lexPath, ret []*aval)) bool {
+func (w *lexWalker) call(fr *lexFrame, b *ssa.BasicBlock, i int, x *ssa.Call, p *lexPath, on map[*ssa.BasicBlock]int, done func(p *lexPath, ret []*aval)) bool {
 	lf := w.lf
 	site := fr.site
 	if fr.depth == 0 {
 		site = x
 	}
 	_ = site
-	if _, isB := x.Call.Value.(*ssa.Builtin); isB || x.Call.IsInvoke() {
+	if bi, isB := x.Call.Value.(*ssa.Builtin); isB || x.Call.IsInvoke() {
+		if isB && bi.Name() == "len" && len(x.Call.Args) == 1 {
+			if lv := w.ev(fr, x.Call.Args[0]); lv != nil && lv.isList {
+				fr.env[x] = &aval{k: constant.MakeInt64(int64(len(lv.list)))}
+			}
+		}
 		lf.transfer(fr.cx, p.s, x)
 		return false
 	}
@@ -450,7 +529,8 @@ func (w *lexWalker) call(fr *lexFrame, b *ssa.BasicBlock, i int, x *ssa.Call, p 
 		return false
 	}
 	// a function of the lexer package
-	if acyclic(cal) && fr.depth < 4 {
+	returnsToken := cal.Signature.Results().Len() == 1 && namedIs(cal.Signature.Results().At(0).Type(), "token", "Token")
+	if (acyclic(cal) || returnsToken) && fr.depth < 4 {
 		params := map[*ssa.Parameter]bset{}
 		env := map[ssa.Value]*aval{}
 		for pi, par := range cal.Params {
@@ -617,7 +697,7 @@ func (c *Ctx) lexOutcomes() ([]lexOutcome, []string) {
 	if len(lf.problems) > 0 {
 		return nil, lf.problems
 	}
-	w := &lexWalker{c: c, lf: lf, problems: map[string]bool{}}
+	w := &lexWalker{c: c, lf: lf, la: lexerAnchors(c), problems: map[string]bool{}}
 	bcx := lf.contextsOf(lf.base)
 	if len(bcx) == 0 || bcx[0].entry == nil || !bcx[0].entry.live {
 		return nil, []string{"the dispatcher has no analysed entry state"}
@@ -647,6 +727,15 @@ func (c *Ctx) lexOutcomes() ([]lexOutcome, []string) {
 						o.lit, o.litOK = constant.StringVal(lv.k), true
 					case lv.tag == "scanlit":
 						o.litScan = true
+					}
+				}
+				o.startLineAdv, o.startColAdv = -1, -1
+				if sv := ret[0].fields["Start"]; sv != nil && sv.fields != nil {
+					if lv := sv.fields["Line"]; lv != nil && lv.tag == "line" {
+						o.startLineAdv = lv.adv
+					}
+					if cv := sv.fields["Column"]; cv != nil && cv.tag == "column" {
+						o.startColAdv = cv.adv
 					}
 				}
 				if tv := ret[0].fields["Type"]; tv != nil {
@@ -772,4 +861,85 @@ func (c *Ctx) lexemesFromOutcomes(lt *lexemeTable) []string {
 	_ = nonPrintableIll
 	lt.fixed, lt.illegal, lt.strDelims, lt.identType, lt.sites = fixed, ill, delims, ident, len(sites)
 	return nil
+}
+
+func zeroAval(t types.Type) *aval {
+	switch u := t.Underlying().(type) {
+	case *types.Basic:
+		return &aval{k: zeroOf(u)}
+	case *types.Struct:
+		return &aval{fields: map[string]*aval{}}
+	case *types.Slice:
+		return &aval{isList: true}
+	}
+	return &aval{}
+}
+
+// globalAval: the folded value of a package-level table whose initialiser is literal data (consteval.go), for
+// tables the SSA-level readers do not understand (nested literals: rows holding lists of pairs).
+func (c *Ctx) globalAval(v ssa.Value) *aval {
+	g := globalOf(v)
+	if g == nil || g.Pkg == nil {
+		return nil
+	}
+	if c.gavals == nil {
+		c.gavals = map[*ssa.Global]*aval{}
+	}
+	if a, ok := c.gavals[g]; ok {
+		return a
+	}
+	c.gavals[g] = nil
+	if !globalWrittenOnlyInInit(g) {
+		return nil
+	}
+	short := shortPkg(g.Pkg.Pkg.Path())
+	pk := c.Pkgs[short]
+	if pk == nil {
+		return nil
+	}
+	obj := pk.Types.Scope().Lookup(g.Name())
+	if obj == nil {
+		return nil
+	}
+	ce := &constEval{c: c, pkg: short, info: pk.TypesInfo}
+	init := ce.packageVarInit(obj)
+	if init == nil {
+		return nil
+	}
+	cv, ok := ce.expr(map[types.Object]*cval{}, init)
+	if !ok || cv == nil {
+		return nil
+	}
+	a := cvalToAval(cv)
+	c.gavals[g] = a
+	return a
+}
+
+func cvalToAval(v *cval) *aval {
+	if v == nil {
+		return nil
+	}
+	switch {
+	case v.k != nil:
+		return &aval{k: v.k}
+	case v.flds != nil:
+		out := &aval{fields: map[string]*aval{}}
+		for k, f := range v.flds {
+			out.fields[k] = cvalToAval(f)
+		}
+		return out
+	case v.isMap:
+		out := &aval{mapv: map[string]*aval{}}
+		for k, e := range v.mp {
+			out.mapv[k] = cvalToAval(e)
+		}
+		return out
+	case v.list != nil:
+		out := &aval{isList: true}
+		for _, e := range v.list {
+			out.list = append(out.list, cvalToAval(e))
+		}
+		return out
+	}
+	return &aval{}
 }
